@@ -238,7 +238,8 @@ func execGcs(c Case) string {
 				members++
 			}
 		}
-		return b2s(bytes.Equal(b1, b2)) + " " + b2s(err2 == nil && k1 != k2) + " " + itoa(members) + "/" + itoa(len(items))
+		// the random key and the resulting bytes go to the model, which rebuilds the filter with that key
+		return b2s(bytes.Equal(b1, b2)) + " " + b2s(err2 == nil && k1 != k2) + " " + itoa(members) + "/" + itoa(len(items)) + " " + hx(k1[:]) + " " + hx(b1)
 	case "basic": // basic <txs> <prevheader>
 		blk := wire.NewMsgBlock(&wire.BlockHeader{Nonce: uint32(len(a[0]))})
 		txs := []*wire.MsgTx{}
